@@ -153,9 +153,15 @@ def cases(tier, seed):
     return cs
 
 
+def _crc(case):
+    import json, zlib
+
+    return zlib.crc32(json.dumps(case, sort_keys=True).encode())
+
+
 def run_case(case, tier):
     m = common.mods(fake_skia=True)
-    return common.run_symbolic(
+    res = common.run_symbolic(
         make_harness(case),
         mods_=m,
         timeout_ms=10000,
@@ -163,6 +169,16 @@ def run_case(case, tier):
         validate_every=0,
         trace_first=1,
     )
+    # translator validation: the abstract-Skia verdict "held" must agree with the real package and
+    # the real Skia on the battery of self-overlapping operands (independent winding sampler);
+    # a quarter of the cases in quick, all in thorough
+    if not res["failures"] and not case.get("raise") and all(r in RULES for r in case["rules"]) and (tier != "quick" or _crc(case) % 4 == 0):
+        rep = replay(case, {"label": "validation"})
+        if rep.get("reproduced"):
+            res["inconclusive"].append(f"translator validation: real package disagrees on the battery: {rep.get('detail')}")
+        else:
+            res["validated"] += 1
+    return res
 
 
 def finding_key(case, failure):
